@@ -75,6 +75,17 @@ func entryPoints() []entryPoint {
 			_, err := rd.NextFrame()
 			return false, err
 		}},
+		{"Reader/refused-frame-then-Discard-and-Read", nil, false, func(src *env.Src, dst *env.Dst, max int64) (bool, error) {
+			// a caller that answers a refusal by discarding "the current frame" and asking Read once
+			// more: a frame refused for its size stays unread
+			rd := &wsutil.Reader{Source: src, State: ws.StateServerSide, MaxFrameSize: max}
+			_, err := rd.NextFrame()
+			if err == wsutil.ErrFrameTooLarge {
+				rd.Discard()
+				rd.Read(make([]byte, 64))
+			}
+			return false, err
+		}},
 		{"Reader.NextFrame-only/nocheck", nil, true, func(src *env.Src, dst *env.Dst, max int64) (bool, error) {
 			rd := &wsutil.Reader{Source: src, SkipHeaderCheck: true, MaxFrameSize: max}
 			_, err := rd.NextFrame()
